@@ -450,6 +450,62 @@ var c04Fixed = []string{
 	"(struct)",
 }
 
+// retype returns a struct type equal to t except that one declared field carries a different thrift type (or, for a
+// collection, different item types), a value of it, and the value t must decode to in non-strict mode: the retyped
+// field is skipped (zero value) and every other field is unaffected.
+func retype(g *tgen, t *tty, v *tval) (*tty, *tval, *tval) {
+	if t.k != tStruct || len(t.fields) == 0 {
+		return nil, nil, nil
+	}
+	i := rndn(len(t.fields))
+	f := t.fields[i]
+	if f.enum {
+		return nil, nil, nil
+	}
+	bt := baseT(f.t)
+	var cands []string
+	switch bt.k {
+	case tList:
+		cands = []string{"(list i64)", "(list str)", "(list (struct (f 1 0 bool)))"}
+	case tSet:
+		cands = []string{"(set i64)", "(set str)"}
+	case tMap:
+		cands = []string{"(map str i64)", "(map i64 str)", "(map i32 (list bool))"}
+	}
+	if len(cands) == 0 || rndBool() {
+		cands = []string{"bool", "i8", "i16", "i32", "i64", "f64", "str", "(list bool)", "(set i32)", "(map str (list i64))", "(struct (f 1 0 bool) (f 300 0 (struct (f 2 0 bool))))"}
+	}
+	et := ttyFromSx(parseSx(pick(cands)))
+	same := cmpCode[baseT(et).k] == cmpCode[bt.k]
+	if same && f.t.k == tPtr {
+		return nil, nil, nil // the pointer is allocated before the item types are compared: not a zero value
+	}
+	if same {
+		switch bt.k { // same wire type: the item types must differ
+		case tList:
+			same = cmpCode[baseT(et.elem).k] == cmpCode[baseT(bt.elem).k]
+		case tSet:
+			same = cmpCode[baseT(et.key).k] == cmpCode[baseT(bt.key).k]
+		case tMap:
+			same = cmpCode[baseT(et.key).k] == cmpCode[baseT(bt.key).k] && cmpCode[baseT(et.elem).k] == cmpCode[baseT(bt.elem).k]
+		}
+	}
+	if same {
+		return nil, nil, nil
+	}
+	ev := g.value(et, true)
+	if tIsZero(et, ev) || ev.multiEntry() {
+		return nil, nil, nil
+	}
+	rt := &tty{k: tStruct, fields: append([]tfield(nil), t.fields...)}
+	rt.fields[i] = tfield{id: f.id, required: true, t: et}
+	rv := &tval{k: tStruct, elems: append([]*tval(nil), v.elems...)}
+	rv.elems[i] = ev
+	want := &tval{k: tStruct, elems: append([]*tval(nil), v.elems...)}
+	want.elems[i] = tzero(f.t)
+	return rt, rv, want
+}
+
 func tgenerator() *tgen { return &tgen{maxDepth: 3} }
 
 func tTypes(n int) []*tty {
@@ -547,6 +603,14 @@ func c08() {
 			wt, wv := widen(g, t, v)
 			if wb, err := thrift.Marshal(tproto(p), wt.toGo(wv).Addr().Interface()); err == nil {
 				tDecodeExpect(t, wb, p, v.canon())
+			}
+			// a declared field carrying another type (non-strict mode): skipped, the other fields unaffected
+			for k := 0; k < 3; k++ {
+				if rt, rv, want := retype(g, t, v); rt != nil {
+					if rb, err := thrift.Marshal(tproto(p), rt.toGo(rv).Addr().Interface()); err == nil {
+						tDecodeExpect(t, rb, p, want.canon())
+					}
+				}
 			}
 			// a missing required field is reported
 			for i, f := range t.fields {
